@@ -143,7 +143,7 @@ def search(pid, record):
         r = crashsearch.search(binary)
         if r.get("found"):
             return r
-    if record.get("file", "").startswith("src/storage/"):
+    if record.get("file", "").startswith("src/storage"):
         seed = os.environ.get("VERIF_SEED", "0") or "0"
         p = _run(binary, ["store-search", seed], timeout=600, prop=pid)
         last = None
